@@ -244,9 +244,13 @@ func (vm *VM) exec(pc bytecode, vars []Variable, cont Cont, args []Term, astack 
 		case opExit:
 			return cont(env)
 		case opCut:
-			return cut(cutParent, func(context.Context) *Promise {
-				return vm.exec(pc, vars, cont, args, astack, env, cutParent)
+			// The barrier is popped by this cut. A later cut in the same clause body stops at this promise instead,
+			// which stays on the stack below everything the rest of the body creates.
+			var p *Promise
+			p = cut(cutParent, func(context.Context) *Promise {
+				return vm.exec(pc, vars, cont, args, astack, env, p)
 			})
+			return p
 		case opGetList:
 			l := operand.(Integer)
 			arg, astack = args[0], append(astack, args[1:])
